@@ -41,7 +41,7 @@ def run_mutant(mutant, tier, seeded_dir=None):
                 return {"name": mutant["name"], "property": mutant["property"], "status": "anchor-not-unique",
                         "detail": f"{source.count(mutant['old'])} occurrences"}
             open(path, "w").write(source.replace(mutant["old"], mutant["new"]))
-        env = dict(os.environ, VERIF_REPO=repo, VERIF_AUDIT="1", VERIF_OUT=os.path.join(scratch, "out"))
+        env = dict(os.environ, VERIF_REPO=repo, VERIF_AUDIT="1", VERIF_OUT=os.path.join(scratch, "out"), VERIF_JOBS=os.environ.get("VERIF_JOBS", "8"))
         fired = {}
         for prop in mutant.get("checks", [mutant["property"]]):
             proc = subprocess.run([os.path.join(VERIF, "check"), prop, "--tier", tier],
